@@ -104,8 +104,9 @@ func (p *MultilineAction) Do(event *pipeline.Event) pipeline.ActionResult {
 	buf.B = event.Root.Dig("log").AppendEscapedString(buf.B)
 	logFragment := pipeline.ByteToStringUnsafe(buf.B)
 	if logFragment == "" {
-		p.logger.Fatalf("wrong event format, it doesn't contain log field: %s", event.Root.EncodeToString())
-		panic("_")
+		// a broken line must not take the collector down (it would be read again after the restart)
+		p.logger.Errorf("wrong event format, it doesn't contain log field: %s", event.Root.EncodeToString())
+		return pipeline.ActionPass
 	}
 	if len(logFragment) < 2 || logFragment[0] != '"' {
 		// the log field is not a string: there is nothing to join
